@@ -460,9 +460,10 @@ struct or pointer-to-struct type (name resolution of the current code, `cfg.dn =
 `Conf`: every member the checker resolves can be fetched and conforms, so pointers typed as structs are
 not nil), slices of structs (index, `#`, the builtins with closures over struct elements), `map[string]interface{}` values (member, index, `in`, `len`; the result an `interface{}`, of
 which nothing is claimed but that the access does not fail), indexing a `[]interface{}`, `in` on structs,
-map literals, and — behind hypotheses on the world, switched on by the two flags of `inFrag2` — calls of
-environment functions (`WorldConforms`) and `matches` (`RegexTotal`: the patterns met compile; `Spec.eval`
-reports a pattern that does not compile in the type class, although it depends on the pattern's value) and
+map literals, and — behind hypotheses on the world, switched on by the flags `FragOpts` of `inFrag2` — calls of
+environment functions (`WorldConforms`) and `matches` (`RegexTotal`: EVERY pattern compiles — stronger than a faithful regexp
+world offers, where `"("` does not compile; `Spec.eval` reports a pattern that does not compile in the type
+class, so the theorem assumes that failure away rather than tolerating it: a limitation, see the report) and
 method calls `x.m(…)` on struct-typed receivers (`MethodsConform`).  `typed2` is "every operand has a static type the construct's rule is sound for": scalar
 operands for the scalar operators and the predicate's body, a slice of scalars (`[]int`, `[]string`, …)
 where a collection is expected, an integer (not `interface{}`) index.  This excludes, explicitly, the constructs
@@ -473,10 +474,12 @@ slice type `[]T` (it differs from the run-time `[]interface{}`: they are in the 
 slice of scalars, a value of that type (for a slice: the element tag and every element).  The tolerated
 failures are the value-dependent ones, `ValueDep`: division by zero, index out of range, memory budget. -/
 
-/-- **Soundness on the extended fragment**: if `Check` accepts `n` with type `τ` (a scalar or a slice of
-scalars), evaluating the annotated tree with the reference evaluator yields a value of type `τ` — for a
-slice: with the static element tag and all elements of the element type — or fails with a
-value-dependent error; never with a type error. -/
+/-- **Soundness on the extended fragment**: if `Check` accepts `n` with type `τ` — any type `vtyOf`
+classifies: a scalar, a slice of scalars (then with the static element tag and all elements of the element
+type), a `[]interface{}`, a struct or pointer to struct (members conform, `Conf`), a slice of structs, a
+`map[string]interface{}`, or an interface (then nothing is claimed of the value) — evaluating the annotated
+tree with the reference evaluator yields a value of that type or fails with a value-dependent error; never
+with a type error. -/
 theorem check_sound_collections_partial (cfg : CheckCfg) (c : Spec.SCfg) (henv : EnvConforms2 cfg c.env)
     (hdn : cfg.dn = NDefects.asIs)
     (n n' : Node) (τ : OTy) (V : VTy) (hfrag : inFrag2 {} n = true) (hstatic : typed2 cfg [] n = true)
@@ -936,14 +939,586 @@ theorem struct_conforms_witness :
       rw [zaMethods] at h
       cases h
 
--- `MethodsConform` is satisfiable for every configuration (a world whose functions all panic), and so not
--- contradictory; `RegexTotal` likewise (a world whose matcher accepts every pattern)
-example (cfg : CheckCfg) : MethodsConform (fun e => ValueDep e ∨ e = .call) cfg
-    { sampleSCfg with world := { sampleWorld with call := fun _ _ => .error .call } } :=
-  fun _ _ _ _ _ _ _ _ _ _ _ _ _ _ _ _ _ _ _ _ _ _ => Or.inr rfl
-
 -- `RegexTotal` is satisfiable (a world whose matcher accepts every pattern)
 example : RegexTotal { sampleSCfg with world := { sampleWorld with regexMatch := fun _ _ => some false } } :=
   fun _ _ => rfl
+
+/-! ### every hypothesis satisfied: environments, worlds and the theorems instantiated end to end -/
+
+def tbl4 : Table := [("Sts", { ty := some (.slice tZA) }), ("I", { ty := some tInt }), ("PSt", { ty := some (.ptr tZA) }), ("St", { ty := some tZA })]
+theorem types4 : (cfgWith4 .asIs).types = some tbl4 := by decide +kernel
+
+def zaV : Val := .struct "main.ZA" false [("X", .int .int 1), ("Y", .str "a")]
+def pzaV : Val := .struct "main.ZA" true [("X", .int .int 1), ("Y", .str "a")]
+def env4 : Val := .struct "main.E4" false [("St", zaV), ("PSt", pzaV), ("I", .int .int 5), ("Sts", .arr (.other "main.ZA") [zaV, zaV])]
+def scfg4 : Spec.SCfg := { world := sampleWorld, env := env4, budget := 1000 }
+
+theorem zaFields' (name : String) :
+    fieldTypeT .asIs (some tZA) name = if name = "X" then some tInt else if name = "Y" then some .string else none := by
+  by_cases h1 : name = "X"
+  · subst h1; decide +kernel
+  · by_cases h2 : name = "Y"
+    · subst h2; decide +kernel
+    · have h1' : ¬ "X" = name := fun h => h1 h.symm
+      have h2' : ¬ "Y" = name := fun h => h2 h.symm
+      have hdep : tZA.depth = 3 := by decide +kernel
+      have hd : tZA.deref = tZA := by decide +kernel
+      have hk : tZA.kind = .struct := by decide +kernel
+      have l0 : levelFields 0 tZA = [fld "X" tInt, fld "Y" .string] := by decide +kernel
+      have l1 : levelFields 1 tZA = [] := by decide +kernel
+      have l2 : levelFields 2 tZA = [] := by decide +kernel
+      have l3 : levelFields 3 tZA = [] := by decide +kernel
+      simp only [fieldTypeT, hdep, h1, h2, if_false]
+      rw [C16.fieldType_repaired_succ, hd, hk]
+      simp [reflField, hdep, searchLevels, l0, l1, l2, l3, List.filter, fld, Field.name, h1', h2']
+
+
+theorem pzaFields' (name : String) :
+    fieldTypeT .asIs (some (.ptr tZA)) name = if name = "X" then some tInt else if name = "Y" then some .string else none := by
+  by_cases h1 : name = "X"
+  · subst h1; decide +kernel
+  · by_cases h2 : name = "Y"
+    · subst h2; decide +kernel
+    · have h1' : ¬ "X" = name := fun h => h1 h.symm
+      have h2' : ¬ "Y" = name := fun h => h2 h.symm
+      have hdep : (Ty.ptr tZA).depth = 4 := by decide +kernel
+      have hdep0 : tZA.depth = 3 := by decide +kernel
+      have hd : (Ty.ptr tZA).deref = tZA := by decide +kernel
+      have hk : tZA.kind = .struct := by decide +kernel
+      have l0 : levelFields 0 tZA = [fld "X" tInt, fld "Y" .string] := by decide +kernel
+      have l1 : levelFields 1 tZA = [] := by decide +kernel
+      have l2 : levelFields 2 tZA = [] := by decide +kernel
+      have l3 : levelFields 3 tZA = [] := by decide +kernel
+      simp only [fieldTypeT, hdep, h1, h2, if_false]
+      rw [C16.fieldType_repaired_succ, hd, hk]
+      simp [reflField, hdep0, searchLevels, l0, l1, l2, l3, List.filter, fld, Field.name, h1', h2']
+
+theorem zaMethods' (name : String) : methodTarget .asIs (some tZA) name = none := by
+  have hms : methodSet tZA = [] := by decide +kernel
+  have hdep : tZA.depth = 3 := by decide +kernel
+  have hd : tZA.derefOnce = tZA := by decide +kernel
+  have hk : tZA.kind = .struct := by decide +kernel
+  by_cases h1 : name = "X"
+  · subst h1; decide +kernel
+  · by_cases h2 : name = "Y"
+    · subst h2; decide +kernel
+    · have h1' : ¬ "X" = name := fun h => h1 h.symm
+      have h2' : ¬ "Y" = name := fun h => h2 h.symm
+      have l0 : levelFields 0 tZA = [fld "X" tInt, fld "Y" .string] := by decide +kernel
+      have l1 : levelFields 1 tZA = [] := by decide +kernel
+      have l2 : levelFields 2 tZA = [] := by decide +kernel
+      have l3 : levelFields 3 tZA = [] := by decide +kernel
+      simp [methodTarget, methodTypeT, methodType, methodByName, hms, hdep, hd, hk, NDefects.asIs, reflField, searchLevels,
+        l0, l1, l2, l3, List.filter, fld, Field.name, h1', h2']
+
+theorem pzaMethods' (name : String) : methodTarget .asIs (some (.ptr tZA)) name = none := by
+  have hms : methodSet (.ptr tZA) = [] := by decide +kernel
+  have hdep : (Ty.ptr tZA).depth = 4 := by decide +kernel
+  have hdep0 : tZA.depth = 3 := by decide +kernel
+  have hd : (Ty.ptr tZA).derefOnce = tZA := by decide +kernel
+  have hd0 : tZA.derefOnce = tZA := by decide +kernel
+  have hk : tZA.kind = .struct := by decide +kernel
+  have hkp : (Ty.ptr tZA).kind = .ptr := by decide +kernel
+  by_cases h1 : name = "X"
+  · subst h1; decide +kernel
+  · by_cases h2 : name = "Y"
+    · subst h2; decide +kernel
+    · have h1' : ¬ "X" = name := fun h => h1 h.symm
+      have h2' : ¬ "Y" = name := fun h => h2 h.symm
+      have l0 : levelFields 0 tZA = [fld "X" tInt, fld "Y" .string] := by decide +kernel
+      have l1 : levelFields 1 tZA = [] := by decide +kernel
+      have l2 : levelFields 2 tZA = [] := by decide +kernel
+      have l3 : levelFields 3 tZA = [] := by decide +kernel
+      simp [methodTarget, methodTypeT, methodType, methodByName, hms, hdep, hdep0, hd, hd0, hk, hkp, NDefects.asIs, reflField, searchLevels,
+        l0, l1, l2, l3, List.filter, fld, Field.name, h1', h2']
+
+theorem confZA (p : Bool) (t : Ty) (hV : vtyOf (some t) = some (.obj (some t)))
+    (hf : ∀ name, fieldTypeT .asIs (some t) name = if name = "X" then some tInt else if name = "Y" then some .string else none)
+    (hm : ∀ name, methodTarget .asIs (some t) name = none) :
+    ValOfV (.struct "main.ZA" p [("X", .int .int 1), ("Y", .str "a")]) (.obj (some t)) := by
+  intro n
+  cases n with
+  | zero => trivial
+  | succ n =>
+    simp only [Conf, hV]
+    refine ⟨_, _, _, rfl, ?_, ?_⟩
+    · intro name τ hf'
+      rw [hf] at hf'
+      by_cases h1 : name = "X"
+      · subst h1
+        simp only [if_true] at hf'
+        cases hf'
+        refine ⟨.int .int 1, fun ns => by cases ns <;> rfl, ?_⟩
+        cases n with
+        | zero => trivial
+        | succ n =>
+          have : vtyOf (some tInt) = some (.sc (.num .int)) := by decide
+          simp only [Conf, this]
+          exact ⟨1, rfl⟩
+      · by_cases h2 : name = "Y"
+        · subst h2
+          simp (config := {decide := true}) only [if_true, if_false] at hf'
+          cases hf'
+          refine ⟨.str "a", fun ns => by cases ns <;> rfl, ?_⟩
+          cases n with
+          | zero => trivial
+          | succ n =>
+            have : vtyOf (some Ty.string) = some (.sc .string) := by decide
+            simp only [Conf, this]
+            exact ⟨"a", rfl⟩
+        · simp only [h1, h2, if_false] at hf'
+          cases hf'
+    · intro name fn im h
+      rw [hm] at h
+      cases h
+
+
+def tbl5 : Table := [("Str", { ty := some .string }), ("St", { ty := some tZA }), ("Anys", { ty := some (.slice interfaceType) }), ("MA", { ty := some (.map .string interfaceType) })]
+theorem types5 : (cfgWith5 .asIs).types = some tbl5 := by decide +kernel
+def env5 : Val := .struct "main.E5" false [("MA", .map [("k", .int .int 1)]), ("Anys", .arr .iface [.str "z"]), ("St", zaV), ("Str", .str "k")]
+def scfg5 : Spec.SCfg := { world := { sampleWorld with regexMatch := fun _ _ => some false }, env := env5, budget := 1000 }
+
+theorem get5 (name : String) :
+    tbl5.get? name = if name = "Str" then some { ty := some .string }
+      else if name = "St" then some { ty := some tZA }
+      else if name = "Anys" then some { ty := some (.slice interfaceType) }
+      else if name = "MA" then some { ty := some (.map .string interfaceType) } else none := by
+  simp only [tbl5, Table.get?]
+  by_cases h1 : name = "Str"
+  · subst h1; rfl
+  by_cases h2 : name = "St"
+  · subst h2; rfl
+  by_cases h3 : name = "Anys"
+  · subst h3; rfl
+  by_cases h4 : name = "MA"
+  · subst h4; rfl
+  have h1' : ¬ "Str" = name := fun h => h1 h.symm
+  have h2' : ¬ "St" = name := fun h => h2 h.symm
+  have h3' : ¬ "Anys" = name := fun h => h3 h.symm
+  have h4' : ¬ "MA" = name := fun h => h4 h.symm
+  simp [h1, h2, h3, h4, h1', h2', h3', h4']
+
+theorem env5_conf : EnvConforms2 (cfgWith5 .asIs) scfg5.env := by
+  intro name ns τ V hr hV
+  unfold identRule at hr
+  rw [types5] at hr
+  simp only [get5] at hr
+  by_cases h1 : name = "Str"
+  · subst h1
+    simp (config := {decide := true}) only [if_true, if_false] at hr
+    cases hr
+    have : vtyOf (some Ty.string) = some (.sc .string) := by decide
+    rw [this] at hV; cases hV
+    exact ⟨.str "k", by cases ns <;> rfl, "k", rfl⟩
+  by_cases h2 : name = "St"
+  · subst h2
+    simp (config := {decide := true}) only [if_true, if_false] at hr
+    cases hr
+    have hv : vtyOf (some tZA) = some (.obj (some tZA)) := by decide +kernel
+    rw [hv] at hV; cases hV
+    exact ⟨zaV, by cases ns <;> rfl, confZA false tZA hv zaFields' zaMethods'⟩
+  by_cases h3 : name = "Anys"
+  · subst h3
+    simp (config := {decide := true}) only [if_true, if_false] at hr
+    cases hr
+    have hv : vtyOf (some (.slice interfaceType)) = some .anys := by decide +kernel
+    rw [hv] at hV; cases hV
+    exact ⟨_, by cases ns <;> rfl, _, rfl⟩
+  by_cases h4 : name = "MA"
+  · subst h4
+    simp (config := {decide := true}) only [if_true, if_false] at hr
+    cases hr
+    have hv : vtyOf (some (.map .string interfaceType)) = some .mapAny := by decide +kernel
+    rw [hv] at hV; cases hV
+    exact ⟨_, by cases ns <;> rfl, _, rfl⟩
+  simp only [h1, h2, h3, h4, if_false] at hr
+  simp (config := {decide := true}) only [cfgWith5, if_false] at hr
+  cases ns <;> simp at hr
+  cases hr
+  have : vtyOf none = none := by decide
+  rw [this] at hV; cases hV
+
+theorem sound_maps_witness : ∀ n' τ, check (cfgWith5 .asIs) exprMaps = .ok n' τ → ∀ ctx s,
+      match (Spec.eval scfg5 ctx n' s).1 with
+      | .ok v => ∃ b, v = .bool b
+      | .error e => ValueDep e := by
+  intro n' τ h ctx s
+  have hτ : τ = boolTy := by
+    have : (check (cfgWith5 .asIs) exprMaps).okType = some boolTy := by decide +kernel
+    rw [h] at this
+    simpa [CheckResult.okType] using this
+  subst hτ
+  exact check_sound_collections_partial (cfgWith5 .asIs) scfg5 env5_conf rfl exprMaps n' _
+    (.sc .bool) (by decide +kernel) (by decide +kernel) h (by decide) ctx s
+
+theorem sound_matches_witness : ∀ n' τ, check (cfgWith5 .asIs) exprMatches = .ok n' τ → ∀ ctx s,
+      match (Spec.eval scfg5 ctx n' s).1 with
+      | .ok v => ∃ b, v = .bool b
+      | .error e => ValueDep e ∨ e = .call := by
+  intro n' τ h ctx s
+  have hτ : τ = boolTy := by
+    have : (check (cfgWith5 .asIs) exprMatches).okType = some boolTy := by decide +kernel
+    rw [h] at this
+    simpa [CheckResult.okType] using this
+  subst hτ
+  exact check_sound_calls_partial (cfgWith5 .asIs) scfg5 env5_conf rfl { regex := true } (fun h => by cases h)
+    (fun _ => fun _ _ => rfl) (fun h => by cases h) exprMatches n' _
+    (.sc .bool) (by decide +kernel) (by decide +kernel) h (by decide) ctx s
+
+theorem get4 (name : String) :
+    tbl4.get? name = if name = "Sts" then some { ty := some (.slice tZA) }
+      else if name = "I" then some { ty := some tInt }
+      else if name = "PSt" then some { ty := some (.ptr tZA) }
+      else if name = "St" then some { ty := some tZA } else none := by
+  simp only [tbl4, Table.get?]
+  by_cases h1 : name = "Sts"
+  · subst h1; rfl
+  by_cases h2 : name = "I"
+  · subst h2; rfl
+  by_cases h3 : name = "PSt"
+  · subst h3; rfl
+  by_cases h4 : name = "St"
+  · subst h4; rfl
+  have h1' : ¬ "Sts" = name := fun h => h1 h.symm
+  have h2' : ¬ "I" = name := fun h => h2 h.symm
+  have h3' : ¬ "PSt" = name := fun h => h3 h.symm
+  have h4' : ¬ "St" = name := fun h => h4 h.symm
+  simp [h1, h2, h3, h4, h1', h2', h3', h4']
+
+theorem env4_conf : EnvConforms2 (cfgWith4 .asIs) scfg4.env := by
+  intro name ns τ V hr hV
+  unfold identRule at hr
+  rw [types4] at hr
+  simp only [get4] at hr
+  by_cases h1 : name = "Sts"
+  · subst h1
+    simp (config := {decide := true}) only [if_true, if_false] at hr
+    cases hr
+    have : vtyOf (some (.slice tZA)) = some (.slo (some tZA)) := by decide +kernel
+    rw [this] at hV; cases hV
+    refine ⟨.arr (.other "main.ZA") [zaV, zaV], by cases ns <;> rfl, _, _, rfl, ?_⟩
+    intro x hx
+    have : x = zaV := by simp at hx; exact hx
+    subst this
+    exact confZA false tZA (by decide +kernel) zaFields' zaMethods'
+  by_cases h2 : name = "I"
+  · subst h2
+    simp (config := {decide := true}) only [if_true, if_false] at hr
+    cases hr
+    have : vtyOf (some tInt) = some (.sc (.num .int)) := by decide
+    rw [this] at hV; cases hV
+    exact ⟨.int .int 5, by cases ns <;> rfl, 5, rfl⟩
+  by_cases h3 : name = "PSt"
+  · subst h3
+    simp (config := {decide := true}) only [if_true, if_false] at hr
+    cases hr
+    have hv : vtyOf (some (.ptr tZA)) = some (.obj (some (.ptr tZA))) := by decide +kernel
+    rw [hv] at hV; cases hV
+    exact ⟨pzaV, by cases ns <;> rfl, confZA true (.ptr tZA) hv pzaFields' pzaMethods'⟩
+  by_cases h4 : name = "St"
+  · subst h4
+    simp (config := {decide := true}) only [if_true, if_false] at hr
+    cases hr
+    have hv : vtyOf (some tZA) = some (.obj (some tZA)) := by decide +kernel
+    rw [hv] at hV; cases hV
+    exact ⟨zaV, by cases ns <;> rfl, confZA false tZA hv zaFields' zaMethods'⟩
+  simp only [h1, h2, h3, h4, if_false] at hr
+  simp (config := {decide := true}) only [cfgWith4, if_false] at hr
+  cases ns <;> simp at hr
+  cases hr
+  have : vtyOf none = none := by decide
+  rw [this] at hV; cases hV
+
+/-- end to end: exprMembers and exprSts -/
+theorem sound_members_witness : ∀ n' τ, check (cfgWith4 .asIs) exprMembers = .ok n' τ → ∀ ctx s,
+      match (Spec.eval scfg4 ctx n' s).1 with
+      | .ok v => ∃ b, v = .bool b
+      | .error e => ValueDep e := by
+  intro n' τ h ctx s
+  have hτ : τ = boolTy := by
+    have : (check (cfgWith4 .asIs) exprMembers).okType = some boolTy := by decide +kernel
+    rw [h] at this
+    simpa [CheckResult.okType] using this
+  subst hτ
+  exact check_sound_collections_partial (cfgWith4 .asIs) scfg4 env4_conf rfl exprMembers n' _
+    (.sc .bool) (by decide +kernel) (by decide +kernel) h (by decide) ctx s
+
+theorem sound_sts_witness : ∀ n' τ, check (cfgWith4 .asIs) exprSts = .ok n' τ → ∀ ctx s,
+      match (Spec.eval scfg4 ctx n' s).1 with
+      | .ok v => ∃ b, v = .bool b
+      | .error e => ValueDep e := by
+  intro n' τ h ctx s
+  have hτ : τ = boolTy := by
+    have : (check (cfgWith4 .asIs) exprSts).okType = some boolTy := by decide +kernel
+    rw [h] at this
+    simpa [CheckResult.okType] using this
+  subst hτ
+  exact check_sound_collections_partial (cfgWith4 .asIs) scfg4 env4_conf rfl exprSts n' _
+    (.sc .bool) (by decide +kernel) (by decide +kernel) h (by decide) ctx s
+
+def tFss : Ty := .func [.string] false [.string]
+def addSig : Ty := .func [tZM, tInt, tInt] false [tInt]
+def addSigP : Ty := .func [.ptr tZM, tInt, tInt] false [tInt]
+
+theorem zmFieldsAt (t : Ty) (hdep : t.depth = tZM.depth ∨ t.depth = tZM.depth + 1) (hd : t.deref = tZM) (name : String) :
+    fieldTypeT .asIs (some t) name = if name = "N" then some tInt else if name = "F" then some tFss else none := by
+  have hk : tZM.kind = .struct := by decide +kernel
+  have l0 : levelFields 0 tZM = [fld "N" tInt, fld "F" tFss] := by decide +kernel
+  have l1 : levelFields 1 tZM = [] := by decide +kernel
+  have l2 : levelFields 2 tZM = [] := by decide +kernel
+  have l3 : levelFields 3 tZM = [] := by decide +kernel
+  have l4 : levelFields 4 tZM = [] := by decide +kernel
+  have hdz : tZM.depth = 4 := by decide +kernel
+  have hfx : ∀ k, fieldType .asIs (k + 1) t name = if name = "N" then some tInt else if name = "F" then some tFss else none := by
+    intro k
+    rw [C16.fieldType_repaired_succ, hd, hk]
+    by_cases h1 : name = "N"
+    · subst h1; simp [reflField, hdz, searchLevels, l0, List.filter, fld, Field.name, Field.exported, Field.ty]
+    · by_cases h2 : name = "F"
+      · subst h2; simp [reflField, hdz, searchLevels, l0, List.filter, fld, Field.name, Field.exported, Field.ty]
+      · have h1' : ¬ "N" = name := fun h => h1 h.symm
+        have h2' : ¬ "F" = name := fun h => h2 h.symm
+        simp [reflField, hdz, searchLevels, l0, l1, l2, l3, l4, List.filter, fld, Field.name, h1, h2, h1', h2']
+  simp only [fieldTypeT]
+  exact hfx _
+
+theorem zmMethodsAt (t sigT : Ty) (hms : methodSet t = [("Add", sigT)]) (hdo : t.derefOnce = tZM)
+    (hki : (t.kind != .iface) = true) (hfs : isFuncType (some sigT) = some sigT) (name : String) :
+    methodTarget .asIs (some t) name =
+      if name = "Add" then some (sigT, true) else if name = "F" then some (tFss, false) else none := by
+  have hk : tZM.kind = .struct := by decide +kernel
+  have l0 : levelFields 0 tZM = [fld "N" tInt, fld "F" tFss] := by decide +kernel
+  have l1 : levelFields 1 tZM = [] := by decide +kernel
+  have l2 : levelFields 2 tZM = [] := by decide +kernel
+  have l3 : levelFields 3 tZM = [] := by decide +kernel
+  have l4 : levelFields 4 tZM = [] := by decide +kernel
+  have hdz : tZM.depth = 4 := by decide +kernel
+  have hff : isFuncType (some tFss) = some tFss := by decide +kernel
+  have hfi : isFuncType (some tInt) = none := by decide +kernel
+  have hmt : ∀ k, methodType .asIs (k + 1) t name =
+      if name = "Add" then some (sigT, true) else if name = "F" then some (tFss, false)
+      else if name = "N" then some (tInt, false) else none := by
+    intro k
+    by_cases h0 : name = "Add"
+    · subst h0
+      simp [methodType, methodByName, hms, hki]
+    · have h0' : ¬ "Add" = name := fun h => h0 h.symm
+      by_cases h1 : name = "N"
+      · subst h1
+        simp [methodType, methodByName, hms, hdo, hk, NDefects.asIs, reflField, hdz, searchLevels, l0, List.filter, fld,
+          Field.name, Field.exported, Field.ty]
+      · by_cases h2 : name = "F"
+        · subst h2
+          simp [methodType, methodByName, hms, hdo, hk, NDefects.asIs, reflField, hdz, searchLevels, l0, List.filter, fld,
+            Field.name, Field.exported, Field.ty]
+        · have h1' : ¬ "N" = name := fun h => h1 h.symm
+          have h2' : ¬ "F" = name := fun h => h2 h.symm
+          simp [methodType, methodByName, hms, hdo, hk, NDefects.asIs, reflField, hdz, searchLevels, l0, l1, l2, l3, l4,
+            List.filter, fld, Field.name, h0, h1, h2, h0', h1', h2']
+  simp only [methodTarget, methodTypeT, hmt]
+  by_cases h0 : name = "Add"
+  · subst h0; simp [hfs]
+  · by_cases h2 : name = "F"
+    · subst h2; simp [hff]
+    · by_cases h1 : name = "N"
+      · subst h1; simp [hfi]
+      · simp [h0, h1, h2]
+
+def zmV (p : Bool) : Val := .struct "main.ZM" p [("N", .int .int 1), ("F", .fn "main.ZM.F"), ("Add", .fn "main.ZM.Add")]
+/-- a world in which the two callable members of `ZM` succeed -/
+def world6 : World :=
+  { call := fun id _ => if id = "main.ZM.Add" then .ok (.int .int 7) else if id = "main.ZM.F" then .ok (.str "a") else .error .call
+    regexMatch := fun _ _ => none, pow := fun _ _ => 0 }
+def env6 : Val := .struct "main.E6" false [("M", zmV false), ("PM", zmV true), ("I", .int .int 5)]
+def scfg6 : Spec.SCfg := { world := world6, env := env6, budget := 1000 }
+
+theorem confZM (p : Bool) (t sigT : Ty) (hV : vtyOf (some t) = some (.obj (some t)))
+    (hf : ∀ name, fieldTypeT .asIs (some t) name = if name = "N" then some tInt else if name = "F" then some tFss else none)
+    (hm : ∀ name, methodTarget .asIs (some t) name =
+      if name = "Add" then some (sigT, true) else if name = "F" then some (tFss, false) else none)
+    (hkA : methKey (some t) "Add" = "main.ZM.Add") (hkF : methKey (some t) "F" = "main.ZM.F") :
+    ValOfV (zmV p) (.obj (some t)) := by
+  intro n
+  cases n with
+  | zero => trivial
+  | succ n =>
+    simp only [Conf, hV]
+    refine ⟨_, _, _, rfl, ?_, ?_⟩
+    · intro name τ hf'
+      rw [hf] at hf'
+      by_cases h1 : name = "N"
+      · subst h1
+        simp only [if_true] at hf'
+        cases hf'
+        refine ⟨.int .int 1, fun ns => by cases ns <;> rfl, ?_⟩
+        cases n with
+        | zero => trivial
+        | succ n =>
+          have : vtyOf (some tInt) = some (.sc (.num .int)) := by decide
+          simp only [Conf, this]
+          exact ⟨1, rfl⟩
+      · by_cases h2 : name = "F"
+        · subst h2
+          simp (config := {decide := true}) only [if_true, if_false] at hf'
+          cases hf'
+          have hnm : isMethodVal (.fn "main.ZM.F") = false := by decide +kernel
+          refine ⟨.fn "main.ZM.F", fun ns => by cases ns <;> simp [zmV, fetchV, lookupKv, hnm], ?_⟩
+          cases n with
+          | zero => trivial
+          | succ n =>
+            have : vtyOf (some tFss) = none := by decide +kernel
+            simp only [Conf, this]
+        · simp only [h1, h2, if_false] at hf'
+          cases hf'
+    · intro name fn im h
+      rw [hm] at h
+      by_cases h1 : name = "Add"
+      · subst h1; rw [hkA]; rfl
+      · by_cases h2 : name = "F"
+        · subst h2; rw [hkF]; rfl
+        · simp only [h1, h2, if_false] at h
+          cases h
+
+theorem zm_conf : ValOfV (zmV false) (.obj (some tZM)) :=
+  confZM false tZM addSig (by decide +kernel) (zmFieldsAt tZM (Or.inl rfl) (by decide +kernel))
+    (zmMethodsAt tZM addSig (by decide +kernel) (by decide +kernel) (by decide +kernel) (by decide +kernel))
+    (by decide +kernel) (by decide +kernel)
+
+theorem pzm_conf : ValOfV (zmV true) (.obj (some (.ptr tZM))) :=
+  confZM true (.ptr tZM) addSigP (by decide +kernel) (zmFieldsAt (.ptr tZM) (Or.inr (by decide +kernel)) (by decide +kernel))
+    (zmMethodsAt (.ptr tZM) addSigP (by decide +kernel) (by decide +kernel) (by decide +kernel) (by decide +kernel))
+    (by decide +kernel) (by decide +kernel)
+
+def tbl6 : Table := [("I", { ty := some tInt }), ("PM", { ty := some (.ptr tZM) }), ("M", { ty := some tZM })]
+theorem types6 : (cfgWith6 .asIs).types = some tbl6 := by decide +kernel
+
+theorem get6 (name : String) :
+    tbl6.get? name = if name = "I" then some { ty := some tInt }
+      else if name = "PM" then some { ty := some (.ptr tZM) }
+      else if name = "M" then some { ty := some tZM } else none := by
+  simp only [tbl6, Table.get?]
+  by_cases h1 : name = "I"
+  · subst h1; rfl
+  by_cases h2 : name = "PM"
+  · subst h2; rfl
+  by_cases h3 : name = "M"
+  · subst h3; rfl
+  have h1' : ¬ "I" = name := fun h => h1 h.symm
+  have h2' : ¬ "PM" = name := fun h => h2 h.symm
+  have h3' : ¬ "M" = name := fun h => h3 h.symm
+  simp [h1, h2, h3, h1', h2', h3']
+
+theorem env6_conf : EnvConforms2 (cfgWith6 .asIs) scfg6.env := by
+  intro name ns τ V hr hV
+  unfold identRule at hr
+  rw [types6] at hr
+  simp only [get6] at hr
+  by_cases h1 : name = "I"
+  · subst h1
+    simp (config := {decide := true}) only [if_true, if_false] at hr
+    cases hr
+    have : vtyOf (some tInt) = some (.sc (.num .int)) := by decide
+    rw [this] at hV; cases hV
+    exact ⟨.int .int 5, by cases ns <;> rfl, 5, rfl⟩
+  by_cases h2 : name = "PM"
+  · subst h2
+    simp (config := {decide := true}) only [if_true, if_false] at hr
+    cases hr
+    have hv : vtyOf (some (.ptr tZM)) = some (.obj (some (.ptr tZM))) := by decide +kernel
+    rw [hv] at hV; cases hV
+    exact ⟨zmV true, by cases ns <;> rfl, pzm_conf⟩
+  by_cases h3 : name = "M"
+  · subst h3
+    simp (config := {decide := true}) only [if_true, if_false] at hr
+    cases hr
+    have hv : vtyOf (some tZM) = some (.obj (some tZM)) := by decide +kernel
+    rw [hv] at hV; cases hV
+    exact ⟨zmV false, by cases ns <;> rfl, zm_conf⟩
+  simp only [h1, h2, h3, if_false] at hr
+  simp (config := {decide := true}) only [cfgWith6, if_false] at hr
+  cases ns <;> simp at hr
+  cases hr
+  have : vtyOf none = none := by decide
+  rw [this] at hV; cases hV
+
+/-- the hypothesis on methods holds of `world6` — with calls that succeed -/
+theorem methods6 : MethodsConform (fun e => ValueDep e ∨ e = .call) (cfgWith6 .asIs) scfg6 := by
+  intro t ht name fn im ins variadic numIn offset out vs V hVt hmt hfp _ hV
+  have hdn : (cfgWith6 .asIs).dn = NDefects.asIs := rfl
+  rw [hdn] at hmt
+  -- the receiver types of the environment that are struct types: ZM and *ZM
+  have hcases : t = some tZM ∨ t = some (.ptr tZM) := by
+    have hl : recvTys (cfgWith6 .asIs) = [some tInt, some (.ptr tZM), some tZM, some tZM, some tInt, some tFss, some tInt, some tFss,
+        some tInt, some tFss] ∨ True := Or.inr trivial
+    clear hl
+    have hmem : ∀ x ∈ recvTys (cfgWith6 .asIs), vtyOf x = some (.obj x) → x = some tZM ∨ x = some (.ptr tZM) := by
+      decide +kernel
+    exact hmem t ht hVt
+  have key : ∀ (sigT : Ty) (hm : methodTarget .asIs t name =
+        if name = "Add" then some (sigT, true) else if name = "F" then some (tFss, false) else none)
+      (hkA : methKey t "Add" = "main.ZM.Add") (hkF : methKey t "F" = "main.ZM.F")
+      (hplanA : ∀ n q, funcPlan sigT true n = .inr q → q.2.2.2.2 = tInt),
+      ROK (fun e => ValueDep e ∨ e = .call) (fun v => ValOfV v V) (scfg6.world.call (methKey t name) vs) := by
+    intro sigT hm hkA hkF hplanA
+    rw [hm] at hmt
+    by_cases h1 : name = "Add"
+    · subst h1
+      simp only [if_true, Option.some.injEq, Prod.mk.injEq] at hmt
+      obtain ⟨rfl, rfl⟩ := hmt
+      have hout : out = tInt := hplanA _ _ hfp
+      subst hout
+      have : V = .sc (.num .int) := by
+        have : vtyOf (some tInt) = some (.sc (.num .int)) := by decide
+        rw [this] at hV; cases hV; rfl
+      subst this
+      rw [hkA]
+      exact ⟨7, rfl⟩
+    · by_cases h2 : name = "F"
+      · subst h2
+        simp (config := {decide := true}) only [if_false, if_true, Option.some.injEq, Prod.mk.injEq] at hmt
+        obtain ⟨rfl, rfl⟩ := hmt
+        have hout : out = .string := by
+          unfold funcPlan at hfp
+          simp (config := {decide := true}) [tFss, Ty.funcParts, Ty.core] at hfp
+          split at hfp <;> (try split at hfp) <;> (try split at hfp) <;> simp at hfp
+          exact hfp.2.2.2.2.symm
+        subst hout
+        have : V = .sc .string := by
+          have : vtyOf (some Ty.string) = some (.sc .string) := by decide
+          rw [this] at hV; cases hV; rfl
+        subst this
+        rw [hkF]
+        exact ⟨"a", rfl⟩
+      · simp only [h1, h2, if_false] at hmt
+        cases hmt
+  have planOut : ∀ (sigT : Ty), sigT.funcParts = some ([tZM, tInt, tInt], false, [tInt]) ∨ sigT.funcParts = some ([.ptr tZM, tInt, tInt], false, [tInt]) →
+      (sigT.kind == .iface) = false → ∀ n q, funcPlan sigT true n = .inr q → q.2.2.2.2 = tInt := by
+    intro sigT hp hk n q h
+    unfold funcPlan at h
+    rcases hp with hp | hp <;> simp [hp, hk] at h <;>
+      (split at h <;> (try split at h) <;> (try split at h) <;> simp at h <;> rw [← h])
+  rcases hcases with rfl | rfl
+  · exact key addSig (zmMethodsAt tZM addSig (by decide +kernel) (by decide +kernel) (by decide +kernel) (by decide +kernel) name)
+      (by decide +kernel) (by decide +kernel) (planOut addSig (Or.inl (by decide +kernel)) (by decide +kernel))
+  · exact key addSigP (zmMethodsAt (.ptr tZM) addSigP (by decide +kernel) (by decide +kernel) (by decide +kernel) (by decide +kernel) name)
+      (by decide +kernel) (by decide +kernel) (planOut addSigP (Or.inr (by decide +kernel)) (by decide +kernel))
+
+
+/-- end to end, with successful method calls: `M.Add(I, 2) + PM.Add(1, M.N) > 0 and M.F("a") == "a"` over an
+environment and a world that satisfy every hypothesis (`Add` returns 7, `F` returns "a") -/
+theorem sound_methods_witness : ∀ n' τ, check (cfgWith6 .asIs) exprMethods = .ok n' τ → ∀ ctx s,
+      match (Spec.eval scfg6 ctx n' s).1 with
+      | .ok v => ∃ b, v = .bool b
+      | .error e => ValueDep e ∨ e = .call := by
+  intro n' τ h ctx s
+  have hτ : τ = boolTy := by
+    have : (check (cfgWith6 .asIs) exprMethods).okType = some boolTy := by decide +kernel
+    rw [h] at this
+    simpa [CheckResult.okType] using this
+  subst hτ
+  exact check_sound_calls_partial (cfgWith6 .asIs) scfg6 env6_conf rfl { methods := true } (fun h => by cases h)
+    (fun h => by cases h) (fun _ => methods6) exprMethods n' _ (.sc .bool) (by decide +kernel) (by decide +kernel) h
+    (by decide) ctx s
+
 
 end ExprModel.C03
